@@ -12,12 +12,14 @@
       inline deferrer: a closure deferred by a Drop handler after the last Stakker is gone) -- all refuted below
       at model level (C05_ok is false there).
     The proof (layerRproofs2: coq/R/Lin*.v, LinC05*.v, C05Proofs.v) rests on the linearity census of Lin.v.
-    The check ./check C05 also evaluates a second monitor, C05_calls_ok (the call behind a ret_to!-style Ret starts
-    exactly once unless its target terminates): validated on traces, not yet proved for all programs -- the
-    property as checked is therefore recorded as partial.  See docs/layer_r.md. *)
+    The check ./check C05 also evaluates a second monitor, C05_calls_ok (the call behind a ret_to!-style Ret is not
+    lost: it is discarded only if its target is terminated -- notified before anything else starts -- or the
+    queues are torn down).  It is proved for every program with the global / thread-local deferrer
+    ([C05_calls_not_lost], coq/R/C05cProofs.v, by simulation from C02_ok); [C05_as_checked] is the conjunction the
+    check evaluates.  See docs/layer_r.md. *)
 From Coq Require Import ZArith NArith List Bool.
 Import ListNotations.
-From Stk Require Import Lib.U R.Syntax R.Rt R.Mon R.OneStep R.LinC05Core R.C05Proofs.
+From Stk Require Import Lib.U R.Syntax R.Rt R.Mon R.OneStep R.LinC05Core R.C05Proofs R.C05cProofs.
 
 Theorem C05_ret_exactly_once : forall (d : dkind) (p : list top) (fuel : nat) (t : list ev),
   exec d fuel p = Done t -> NoDup (ret_ids t) -> no_container_leak t -> C05_ok t = true.
@@ -29,6 +31,24 @@ Theorem C05_ret_exactly_once_checked : forall (d : dkind) (p : list top) (fuel :
   exec d fuel p = Done t -> hyp05 t = true -> C05_ok t = true.
 Proof. exact C05_checked. Qed.
 Print Assumptions C05_ret_exactly_once_checked.
+
+(* the second monitor: the call behind a ret_to!-style Ret is not lost *)
+Theorem C05_calls_not_lost : forall (p : list top) (fuel : nat) (t : list ev),
+  exec DGlobal fuel p = Done t -> C05_calls_ok t = true.
+Proof. exact C05_calls_proved. Qed.
+Print Assumptions C05_calls_not_lost.
+
+(* what ./check C05 evaluates on every trace *)
+Theorem C05_as_checked : forall (p : list top) (fuel : nat) (t : list ev),
+  exec DGlobal fuel p = Done t -> NoDup (ret_ids t) -> no_container_leak t -> C05_ok t && C05_calls_ok t = true.
+Proof. intros p fuel t H N L. rewrite (C05_proved _ _ _ _ H N L), (C05_calls_proved _ _ _ H). reflexivity. Qed.
+Print Assumptions C05_as_checked.
+
+Example C05_calls_table :
+  C05_calls_ok [EActor 1; EReady 1; ETarget 5 1 false; ERetTo 9 5 false; ESub QMain 5 true; EDrop 5 (Some QMain) true; ERunRet false] = false /\
+  C05_calls_ok [EActor 1; EReady 1; ETarget 5 1 false; ERetTo 9 5 false; ESub QMain 5 true; EDrop 5 (Some QMain) true; ENotify 1 None; ERunRet false] = true /\
+  C05_calls_ok [EActor 1; EReady 1; ETarget 5 1 false; ESub QMain 5 true; EDrop 5 (Some QMain) true; ERunRet false] = true.
+Proof. exact C05_calls_rejects. Qed.
 
 (* not vacuous: Rets sent, dropped with a discarded call to a Zombie, held in the Prep queue of a killed actor,
    captured by a deleted timer closure, by a lazy closure dropped with the Stakker, ret_some_to dropped, ret_to sent *)
